@@ -17,6 +17,14 @@ FILES = {
     "ok3.i": "int preprocessed;\n",
     "c99.c": "inline int h(void) { _Bool b = 1; return b; }\n",
 }
+# files on which the external preprocessor fails for a reason of its own (no include involved), in the strict and in the relaxed mode alike;
+# and files with a directive it handles.  The outcome of preprocessing THESE is known in advance (gcc -E is run on them by the check itself as well)
+PP_FILES = {
+    "pperr1.c": "#ifndef CONFIGURED\n#error this translation unit needs -DCONFIGURED\n#endif\nint x;\nint f(void) { return x; }\n",
+    "pperr2.c": "#if 1\nint unterminated;\n",
+    "pperr3.c": "#if ID(\nint y;\n#endif\n",
+    "ppok1.c": "#define N 3\nint a[N];\n#if N > 2\nint big;\n#endif\n",
+}
 MSG = ["unhandled file path", "expected option: ", "expected option value", "unrecognized option", "wip", "no input files", "no such file",
        "unsupported C Standard", "unrecognized disambiguation mode", "unrecognized comment mode", "unrecognized preprocessing mode",
        "preprocessing failed", None, None, "cannot load analysis"]
@@ -53,7 +61,7 @@ def run(chk, only=None):
     exe = os.path.join(pv.CACHE, "build-plain", "cnip")
     d = os.path.join(pv.CACHE, "tmp", "c19")
     os.makedirs(d, exist_ok=True)
-    for n, t in FILES.items():
+    for n, t in list(FILES.items()) + list(PP_FILES.items()):
         open(os.path.join(d, n), "w").write(t)
     quick = chk.tier == "quick"
     # front-end results per (file, std, comment, disambiguation)
@@ -82,6 +90,18 @@ def run(chk, only=None):
     # two files, defaults, value-after forms, -pp s / r
     for a, b in itertools.product(list(FILES)[:8], repeat=2):
         cases.append((["-pp", "none", a, b], [a, b], (3, 0, 2)))
+    # preprocessing with a known outcome: the check runs gcc -E on the same file itself; the 4th component is that outcome (1 ok, 0 failed)
+    for f in PP_FILES:
+        try:
+            gcc_ok = subprocess.run(["gcc", "-E", "-x", "c", f], cwd=d, stdout=subprocess.DEVNULL, stderr=subprocess.DEVNULL, timeout=30).returncode == 0
+        except Exception:
+            gcc_ok = None
+        if gcc_ok is None or gcc_ok != (f.startswith("ppok")):
+            chk.notes.append("gcc -E on %s: %r (expected %s); cases with it skipped" % (f, gcc_ok, f.startswith("ppok")))
+            continue
+        for p in ("s", "r"):
+            for extra in ([], ["-fsyntax-only"], ["-std=c99"]):
+                cases.append((["-pp", p] + extra + [f], [f], (1 if "-std=c99" in extra else 3, 0, 2), 1 if gcc_ok else 0))
     for f in ("ok1.c", "syn1.c", "sem1.c", "ok3.i"):
         for p in ("s", "r"):
             cases.append((["-pp", p, f], [f], (3, 0, 2)))
@@ -107,11 +127,14 @@ def run(chk, only=None):
     import concurrent.futures
     with concurrent.futures.ThreadPoolExecutor(max_workers=pv.NCPU) as ex:
         results = list(ex.map(lambda c: run_cnip(exe, c[0], d), cases))
+    cases = [c if len(c) == 4 else c + (None,) for c in cases]
     # model inputs: the files the model's own decoding selects are not known here; give the world for the files named on the command line in order (c files first, then .i files, as Driver::go reads them)
-    for (args, files, cfg), (_rc, _out, _err) in zip(cases, results):
+    for (args, files, cfg, ppknown), (_rc, _out, _err) in zip(cases, results):
         # whether the external preprocessor run succeeded is an oracle of the world (Section variable of the model), observed on the implementation's stderr
         pp_ok = 0 if "preprocessing failed" in (_err or "") else 1
-        named = [a for a in args if a in FILES or a == "nosuch.c"]
+        if ppknown is not None:
+            pp_ok = ppknown            # known independently of what the driver says (PP_FILES)
+        named = [a for a in args if a in FILES or a in PP_FILES or a == "nosuch.c"]
         # the decoder takes non-option words that are not option values; approximating which words are values would duplicate the model, so the world lists
         # results for every FILES name / nosuch.c in the order: *.c and *.h first, then *.i (Driver::go validates cFilePaths_ then iFilePaths_)
         order = [a for a in named if not a.endswith(".i")] + [a for a in named if a.endswith(".i")]
@@ -119,12 +142,14 @@ def run(chk, only=None):
         for f in order:
             if f == "nosuch.c":
                 ws.append((0, 0, 0)); continue
+            if f in PP_FILES:
+                ws.append((1, 0, 0)); continue          # what is left of ppok1.c after preprocessing is a valid unit
             r = FE.get((f,) + cfg)
             ws.append((1, 1 if (r is None or r["syn_err"] or not r["tu"]) else 0, 1 if (r is None or r["sem_err"]) else 0))
         mreqs.append(enc(args, ws, pp=pp_ok, an=0, sub=0))
     model = pv.run_model("C19", mreqs, shards=pv.NCPU)
     bad, bad_print, n_zero = [], [], 0
-    for (args, files, cfg), (rc, out, err), mo in zip(cases, results, model):
+    for (args, files, cfg, ppknown), (rc, out, err), mo in zip(cases, results, model):
         if rc == "timeout" or (isinstance(rc, int) and rc < 0):
             bad.append((args, "terminated by signal/timeout rc=%s" % rc, None)); continue
         if not mo:
@@ -158,7 +183,7 @@ def run(chk, only=None):
     if bad:
         bad.sort(key=lambda x: len(x[0]))
         a, why, err = bad[0]
-        chk.report("cmdline:" + " ".join(a)[:70], {"request": a, "cwd_files": {k: FILES[k] for k in a if k in FILES}, "why": why, "stderr_tail": err,
+        chk.report("cmdline:" + " ".join(a)[:70], {"request": a, "cwd_files": {k: dict(FILES, **PP_FILES)[k] for k in a if k in FILES or k in PP_FILES}, "why": why, "stderr_tail": err,
                                                     "count_failing": len(bad), "others": [" ".join(x[0]) for x in bad[1:8]]}, found=True,
                    what="exit status (or termination) not what the options and the front end's findings prescribe")
     if bad_print:
